@@ -545,6 +545,23 @@ func genMinter(g *Gen, n int) {
 				}
 			}
 		}
+		if s%4 == 3 {
+			// directed shape: far into an exponential period (more than 1000 steps) whose multiplier keeps
+			// changing the step amount: inflation and emission must still use the same step
+			st0 := t0 + int64(g.intn(1000))*sec
+			g.emit("m.cfg umint %d", st0)
+			g.emit("m.period 1 - exp %s %d %s", g.pick("1000000000000", "31536000000000"), sec, g.pick("999000000000000000", "1001000000000000000"))
+			g.emit("m.init 1 0 0 0 %d", st0)
+			g.emit("m.fund 1000000000000000")
+			tt := st0 + int64(1001+g.intn(600))*sec + int64(g.intn(1000))*1000000
+			g.emit("m.block %d", tt)
+			g.emit("m.infl %d", tt)
+			g.emit("m.block %d", tt+600*1000000)
+			g.emit("m.infl %d", tt+600*1000000)
+			g.emit("m.end")
+			g.count("shape/deep-exponential")
+			continue
+		}
 		if ended != nil {
 			// directed shape: a chain (re)started exactly at the end of a period whose state still
 			// points at it: nothing is emitted from that instant on, the reported inflation must be zero
